@@ -8,6 +8,7 @@ LEVEL = "proof"
 CONTRACT_MODULES = ["contracts.c09_init"]
 TARGETS = ["Init", "SetAttr", "DelAttr"]
 FAMILY_FILTER = ["c09.", "c05.value", "c05.others", "c05.noop", "c03.typed", "frame[", "call-pre.", ".noexc.", ".loop", "loop2.", ".cut."]
+SUBCHECKS = [("props._defaults", ["LookupDefault", "DefaultValue"])]
 ASSUMPTIONS = A_COMMON + [
     "PHASE 1 of InitMethod.init (attributes owned by parent spec classes are routed through the parents' constructors: spec_cls.mro(), getattr on "
     "classes, calls of arbitrary user-written parent __init__) is NOT verified: its effect is the declared cut assumption (the instance may have been "
@@ -17,7 +18,9 @@ ASSUMPTIONS = A_COMMON + [
     "stated for classes without __post_init__ (a pure callback in the model); 'exactly once, after all attributes are set' is proved on the ghost call log",
     "the generated __init__ signature (key positional / required, keyword-only attributes, **kwargs only with an overflow attribute) is produced by "
     "MethodBuilder: C17 and the bounded stand-in",
-    "Attr.lookup_default_value (nearest default along the MRO) is an assumed contract (A-META); prepare_attr_value an assumed pure function",
+    "Attr.lookup_default_value is used through the contract LookupDefaultAssumed, which the sub-check LookupDefault discharges against the body with the "
+    "default DV / NODEF *defined* by the walk of the statement (first class along the MRO that owns the record or defines the name); left assumed there: the "
+    "MRO itself (cls.mro()), class namespaces (cdict), inspect.isdatadescriptor, A-CTOR for default_factory(); prepare_attr_value an assumed pure function",
 ]
 EXPLANATION = ("phases 2 and 3 of InitMethod.init are symbolically executed from the current source (loop invariant over the attrs dict): every "
                "init-enabled attribute owned by the class receives the prepared keyword value - protectively copied unless do_not_copy - if one was "
